@@ -35,8 +35,16 @@ impl Bad
     }
 }
 
+/// `Ticket::from_human_readable` under the watchdog
+fn fhr(s: &str) -> Result<Ticket, crate::ticket::FromHumanReadableError>
+{
+    let _w = crate::watch::item(|| (format!("decoding the text {:?} as a hash", s), json!({"engine": "hash"})));
+    Ticket::from_human_readable(s)
+}
+
 fn ruler_hash_of_file(data: &[u8], chunk: Option<usize>, path: &str, mtime: u64) -> Result<String, String>
 {
+    let _w = crate::watch::item(|| (format!("hashing a file of {} bytes (at most {:?} bytes per read)", data.len(), chunk), json!({"engine": "hash"})));
     let mut fs = Fs::new();
     fs.put(path, Arc::new(data.to_vec()), mtime, None);
     let mut cfg = Cfg::plain(ClockModel::Strict);
@@ -74,6 +82,7 @@ fn put_tree(fs: &mut Fs, prefix: &str, t: &BTreeMap<String, Tr>)
 
 fn dir_hash(t: &BTreeMap<String, Tr>) -> Result<String, String>
 {
+    let _w = crate::watch::item(|| (format!("hashing the directory tree {:?}", t), json!({"engine": "hash"})));
     let mut fs = Fs::new();
     put_tree(&mut fs, "root", t);
     let sys = MemSystem::new(fs, Cfg::plain(ClockModel::Strict));
@@ -264,7 +273,7 @@ pub fn run(rep: &mut Report, tier: &str)
         {
             bad.add("text form differs from the independent base-62 encoding", format!("{}: {} vs {}", refsha::hex(v), theirs, mine));
         }
-        match Ticket::from_human_readable(&theirs)
+        match fhr(&theirs)
         {
             Ok(back) => if back != t { bad.add("text form does not decode back to the same hash", refsha::hex(v)); },
             Err(e) => bad.add("text form of a valid hash is rejected", format!("{}: {:?}", refsha::hex(v), e)),
@@ -282,7 +291,7 @@ pub fn run(rep: &mut Report, tier: &str)
             let s = String::from_utf8(s).unwrap();
             evals += 1;
             let want = refsha::decode62(&s);
-            let got = Ticket::from_human_readable(&s);
+            let got = fhr(&s);
             match (&want, &got)
             {
                 (Ok(w), Ok(g)) =>
@@ -301,7 +310,7 @@ pub fn run(rep: &mut Report, tier: &str)
     {
         let max = refsha::encode62(&[0xff; 32]);
         evals += 1;
-        if Ticket::from_human_readable(&max).is_err() { bad.add("the encoding of 2^256-1 is rejected", max.clone()); }
+        if fhr(&max).is_err() { bad.add("the encoding of 2^256-1 is rejected", max.clone()); }
         let mut b = max.clone().into_bytes();
         for pos in 0..43
         {
@@ -313,13 +322,13 @@ pub fn run(rep: &mut Report, tier: &str)
                 let s = String::from_utf8(b.clone()).unwrap();
                 evals += 1;
                 let want = refsha::decode62(&s).is_ok();
-                let got = Ticket::from_human_readable(&s).is_ok();
+                let got = fhr(&s).is_ok();
                 if want != got { bad.add(if want { "a valid 43-character encoding is rejected" } else { "a value too large for 256 bits is accepted" }, s.clone()); }
                 b[pos] = old;
             }
         }
         let z = "Z".repeat(43);
-        if Ticket::from_human_readable(&z).is_ok() { bad.add("a value too large for 256 bits is accepted", z); }
+        if fhr(&z).is_ok() { bad.add("a value too large for 256 bits is accepted", z); }
     }
 
     // 4. strings that are not encodings: every string of length <= 2 over all bytes, every length 0..60 of '0',
@@ -328,13 +337,13 @@ pub fn run(rep: &mut Report, tier: &str)
     {
         let s1 = String::from_utf8_lossy(&[a]).to_string();
         evals += 1;
-        if Ticket::from_human_readable(&s1).is_ok() { bad.add("a 1-character string is accepted as a hash", s1.clone()); }
+        if fhr(&s1).is_ok() { bad.add("a 1-character string is accepted as a hash", s1.clone()); }
         for b2 in 0..=255u8
         {
             if let Ok(s2) = String::from_utf8(vec![a, b2])
             {
                 evals += 1;
-                if Ticket::from_human_readable(&s2).is_ok() { bad.add("a 2-character string is accepted as a hash", s2); }
+                if fhr(&s2).is_ok() { bad.add("a 2-character string is accepted as a hash", s2); }
             }
         }
     }
@@ -342,7 +351,7 @@ pub fn run(rep: &mut Report, tier: &str)
     {
         evals += 1;
         let s = "0".repeat(len);
-        let ok = Ticket::from_human_readable(&s).is_ok();
+        let ok = fhr(&s).is_ok();
         if ok != (len == 43) { bad.add("wrong-length string accepted or 43 zeros rejected", format!("length {}", len)); }
     }
     {
@@ -357,7 +366,7 @@ pub fn run(rep: &mut Report, tier: &str)
                 s[pos] = c;
                 let s: String = s.into_iter().collect();
                 evals += 1;
-                match std::panic::catch_unwind(|| Ticket::from_human_readable(&s).is_ok())
+                match std::panic::catch_unwind(|| fhr(&s).is_ok())
                 {
                     Ok(true) => bad.add("a string with a foreign character is accepted as a hash", s.clone()),
                     Ok(false) => {},
@@ -380,7 +389,7 @@ pub fn run(rep: &mut Report, tier: &str)
             st.push(c);
             st.push_str(&"1".repeat(fill - pos));
             evals += 1;
-            match std::panic::catch_unwind(|| Ticket::from_human_readable(&st).is_ok())
+            match std::panic::catch_unwind(|| fhr(&st).is_ok())
             {
                 Ok(true) => bad.add("a string with a foreign character is accepted as a hash", format!("U+{:04X} at byte {}", cp, pos)),
                 Ok(false) => {},
@@ -412,6 +421,18 @@ pub fn run(rep: &mut Report, tier: &str)
                 }
             }
         }
+    }
+
+    // 6. the same through the command line of the real binary (`ruler hash <path>`, RealSystem)
+    match crate::realbin::hash_cli_family()
+    {
+        Ok((n, findings)) =>
+        {
+            evals += n;
+            rep.set("ruler_hash_cli_invocations", json!(n));
+            for (what, detail) in findings { bad.add(&what, detail); }
+        },
+        Err(e) => rep.machinery(e),
     }
 
     rep.set("evaluations", json!(evals));
